@@ -3,11 +3,11 @@ CONSTANT N = 4
 CONSTANT NX = 2
 CONSTANT NY = 2
 CONSTANT Vals = {0, 1}
-CONSTANT VarSet = {1, 2, 6}
+CONSTANT VarSet = {1, 6}
 CONSTANT BG = 1
 CONSTANT TNs = {4}
 CONSTANT TD = 8
-CONSTANT TailSet = {"both"}
+CONSTANT TailSet = {"left", "right", "both"}
 CONSTANT Paired = FALSE
 CONSTANT K = 2
 CONSTANT KeepDraws = FALSE
